@@ -177,6 +177,33 @@ pub fn check_proxy(run: &mut Run) {
                 }
             }
 
+            // ---------------- C02 decision equals the declared semantics (observed end to end)
+            if on("C02") && attributed && !traversal && !too_large && !provision && phase.prev_doc.is_none() {
+                if let Some(st) = status {
+                    let exp = outcomes[0];
+                    let dup = {
+                        let mut d2 = phase.doc.clone();
+                        let mut any = false;
+                        for ep in ["imds", "wireserver", "hostga"] {
+                            if d2["authorizationRules"][ep].is_object() && rbac::has_duplicate_names(&d2["authorizationRules"][ep]) {
+                                any = true;
+                                d2["authorizationRules"][ep] = rbac::collapse_last(&d2["authorizationRules"][ep]);
+                            }
+                        }
+                        let o2 = rbac::endpoint_outcome(&d2, &recorded_dst, &caller, &rq.target);
+                        let agrees = (matches!(o2, Outcome::Forbid) && !relayed) || (matches!(o2, Outcome::Relay | Outcome::RelayAudit) && relayed);
+                        if any && agrees { " [explained by: of entries sharing a name only the last is kept]" } else { "" }
+                    };
+                    match exp {
+                        Outcome::Forbid if relayed => viol.push(("C02".into(), format!("allowed although the declared semantics deny{}", dup), format!("tok={} dst={} caller={:?} GET {} status={}", rq.tok, cp.dst_name, caller, rq.target, st))),
+                        Outcome::Relay | Outcome::RelayAudit if !relayed && st == 403 => viol.push(("C02".into(), format!("denied although the declared semantics allow{}", dup), format!("tok={} dst={} caller={:?} GET {} status={}", rq.tok, cp.dst_name, caller, rq.target, st))),
+                        _ => {}
+                    }
+                    bump("c02.e2e_decisions");
+                    if exp == Outcome::Forbid { bump("c02.e2e_deny"); }
+                }
+            }
+
             // ---------------- C03 root-only endpoints, no self-proxying
             if on("C03") {
                 if (recorded_dst == hosts::WIRE || recorded_dst == hosts::GA) && !caller.elevated {
@@ -481,4 +508,73 @@ pub fn check_panics(run: &mut Run) {
             run.violate("C13", &format!("panic at {}", loc.rsplit("/repo/").next().unwrap_or(&loc)), format!("{} at {}", msg.chars().take(300).collect::<String>(), loc));
         }
     }
+}
+
+/// C02, localised: the public decision function called directly on (document, caller, url) triples, in the
+/// same process (so the hash iteration order it walks is the run's seeded order), compared with the reference.
+pub fn rbac_direct(run: &mut Run, step: &Value) {
+    use azure_proxy_agent::key_keeper::key::AuthorizationItem;
+    use azure_proxy_agent::proxy::authorization_rules::ComputedAuthorizationItem;
+    use azure_proxy_agent::proxy::proxy_connection::ConnectionLogger;
+    let plan = run.plan.clone();
+    let dup = plan["dup_names"].as_bool().unwrap_or(false);
+    let procs: Vec<usize> = step["procs"].as_array().map(|a| a.iter().map(|x| x.as_u64().unwrap_or(0) as usize).collect()).unwrap_or_default();
+    let mut n = 0i64;
+    let mut denies = 0i64;
+    for case in step["cases"].as_array().cloned().unwrap_or_default() {
+        let item_json = &case["item"];
+        let item: AuthorizationItem = match serde_json::from_value(item_json.clone()) {
+            Ok(i) => i,
+            Err(e) => {
+                run.notes.push(format!("rbac_direct: item does not deserialize: {}", e));
+                continue;
+            }
+        };
+        let computed = ComputedAuthorizationItem::from_authorization_item(item);
+        for pi in procs.iter() {
+            let caller = crate::world::caller_of(&plan, *pi);
+            let p = &plan["procs"][*pi];
+            let claims = azure_proxy_agent::proxy::Claims {
+                userId: p["uid"].as_u64().unwrap_or(0),
+                userName: caller.user.clone(),
+                userGroups: caller.groups.clone(),
+                processId: p["pid"].as_u64().unwrap_or(0) as u32,
+                processName: caller.process_name.clone().into(),
+                processFullPath: caller.exe_path.clone().into(),
+                processCmdLine: String::new(),
+                runAsElevated: caller.elevated,
+                clientIp: "127.0.0.1".into(),
+                clientPort: 0,
+            };
+            for u in case["urls"].as_array().cloned().unwrap_or_default() {
+                let us = u.as_str().unwrap_or("/");
+                let uri: hyper::Uri = match us.parse() {
+                    Ok(x) => x,
+                    Err(_) => continue,
+                };
+                let mut logger = ConnectionLogger::new(0, 0);
+                let got = computed.is_allowed(&mut logger, uri, claims.clone());
+                let want = rbac::is_allowed(item_json, &caller, us);
+                n += 1;
+                if want == rbac::Decision::Deny {
+                    denies += 1;
+                }
+                let bad = match want {
+                    rbac::Decision::Allow => !got,
+                    rbac::Decision::Deny => got,
+                    rbac::Decision::Either => false,
+                };
+                if bad {
+                    let explained = dup && rbac::has_duplicate_names(item_json) && {
+                        let w2 = rbac::is_allowed(&rbac::collapse_last(item_json), &caller, us);
+                        (w2 == rbac::Decision::Allow && got) || (w2 == rbac::Decision::Deny && !got)
+                    };
+                    let class = format!("decision function {} although the declared semantics {}{}", if got { "allows" } else { "denies" }, if got { "deny" } else { "allow" }, if explained { " [explained by: of entries sharing a name only the last is kept]" } else { "" });
+                    run.violate("C02", &class, format!("url={} caller={:?} item={}", us, caller, item_json));
+                }
+            }
+        }
+    }
+    run.stat("c02.direct_decisions", n);
+    run.stat("c02.direct_deny", denies);
 }
